@@ -157,10 +157,23 @@ func init() {
 			prefer := rng.Bool()
 			names := []string{"FOO", "BAR", "BAZ", "foo", "Path", "N", "X1", "TGT", "AL1", "AL2", "AL3", "AL4"}
 			env := &hEnv{m: map[string]string{}, ci: ci}
+			// the same initial variables as a plain map, for the library's own env implementation (internal/env,
+			// reached through the verif hook); unusable when two names differ only in case
+			rawInit := map[string]string{}
+			rawClash := false
+			setInit := func(nm, v string) {
+				for k := range rawInit {
+					if k != nm && strings.EqualFold(k, nm) {
+						rawClash = true
+					}
+				}
+				rawInit[nm] = v
+				env.Set(nm, v)
+			}
 			e0 := sx.List{}
 			for k := rng.Intn(4); k > 0; k-- {
 				nm, v := sx.Pick(rng, names), sx.Pick(rng, []string{"r1", "", "FOO", "BAR", "rv"})
-				env.Set(nm, v)
+				setInit(nm, v)
 				e0 = append(e0, sx.L(sx.A(nm), sx.A(v)))
 			}
 			// block entries: names are mostly plain identifiers, sometimes built by expansion
@@ -179,7 +192,7 @@ func init() {
 					if rng.Chance(30) {
 						t = sx.Pick(rng, []string{"FOO", "BAR", "N", "TGT"})
 					}
-					env.Set(a, t)
+					setInit(a, t)
 					e0 = append(e0, sx.L(sx.A(a), sx.A(t)))
 				}
 			}
@@ -188,11 +201,11 @@ func init() {
 				// several aliases collapse onto one name (superseding half of the block), then a name built by
 				// expansion equals a LATER entry's name
 				other := "BAZ"
-				env.Set("AL5", other)
+				setInit("AL5", other)
 				e0 = append(e0, sx.L(sx.A("AL5"), sx.A(other)))
 				mainName, _ := env.Get("AL1")
 				for _, a := range []string{"AL2", "AL3", "AL4"} {
-					env.Set(a, mainName)
+					setInit(a, mainName)
 					e0 = append(e0, sx.L(sx.A(a), sx.A(mainName)))
 				}
 				var raws []string
@@ -263,6 +276,12 @@ func init() {
 			}
 			p := &pipeline.Pipeline{Env: ordered.MapFromItems(items...), Steps: pipeline.Steps{&pipeline.CommandStep{Command: probe.raw}}}
 			refEnv := env.clone()
+			useLib := it%3 == 1 && !rawClash
+			var libEnv pipeline.InterpolationEnv
+			if useLib {
+				libEnv = pipeline.VerifEnvFromMap(!ci, rawInit)
+				stat("C10", "library-env")
+			}
 			var err error
 			panicked := ""
 			func() {
@@ -271,13 +290,33 @@ func init() {
 						panicked = fmt.Sprint(r)
 					}
 				}()
-				err = p.Interpolate(env, prefer)
+				if useLib {
+					err = p.Interpolate(libEnv, prefer)
+				} else {
+					err = p.Interpolate(env, prefer)
+				}
 			}()
 			if panicked != "" {
 				oracleFail("C10", "panic", c, panicked)
 				continue
 			}
 			want, werr := c10reference(prefer, refEnv, block)
+			if useLib && err == nil && panicked == "" {
+				// read the library env back through its own Get, for every name that can have been set
+				probeNames := append([]string{}, names...)
+				for k := range rawInit {
+					probeNames = append(probeNames, k)
+				}
+				for k := range refEnv.m {
+					probeNames = append(probeNames, k)
+				}
+				env.m = map[string]string{}
+				for _, nm := range probeNames {
+					if v, ok := libEnv.Get(nm); ok {
+						env.Set(nm, v)
+					}
+				}
+			}
 			var wantProbe string
 			if werr == nil {
 				wantProbe, werr = interpolate.Interpolate(refEnv, probe.raw)
